@@ -71,6 +71,31 @@ def gen_problem(rng, pid, big):
         p["y"] = [0.0] * n; p["bias"] = 1; p["param"] = rng.choice([0.25, 0.5, 0.75])
     return p
 
+def gen_special(rng, k, big):
+    """structures the generic generator does not reach (own random stream):
+       'norms'  : machine WITHOUT bias, linear kernel (non-constant diagonal), inputs whose norms differ by factors 2^-3..2^4, enough
+                  points for periodic shrinking: the two-variable step then often moves only ONE variable onto / off a bound;
+       'vertex' : one-class machine on a small set with a LINEAR kernel and nu*n integer: the optimum is a vertex of the feasible
+                  set (no free variable), the bias has to come from the bounded variables."""
+    fam = ["norms", "vertex"][k % 2]
+    if fam == "norms":
+        n = rng.randint(12, 40 if big else 28); d = rng.randint(1, 3)
+        x = [[rng.randint(-4, 4) * 2.0 ** rng.randint(-3, 4) for _ in range(d)] for _ in range(n)]
+        for q in x:
+            if all(v == 0 for v in q): q[0] = 1.0
+        tr = rng.choice(["csvm", "csvm", "csvmw"]); C = rng.choice([2.0 ** -6, 0.125, 1.0, 10.0])   # kernel values reach 1e4: larger C needs millions of iterations
+        p = {"pid": "s%d" % k, "trainer": tr, "n": n, "d": d, "kernel": "lin", "gamma": 0.0, "x": x, "Cneg": C, "Cpos": C * rng.choice([1, 1, 0.5, 4]),
+             "eps": rng.choice([1e-3, 1e-2, 1e-5]), "param": 0.0, "w": None, "bias": 0 if rng.random() < 0.8 else 1}
+        y = [rng.randint(0, 1) for _ in range(n)]
+        if len(set(y)) == 1: y[0] ^= 1
+        p["y"] = [float(v) for v in y]
+        if tr == "csvmw": p["w"] = [rng.choice([0.25, 0.5, 1.0, 2.0]) for _ in range(n)]
+        return p
+    n = rng.choice([2, 4, 4, 6, 8]); d = rng.randint(1, 2); nu = rng.choice([v for v in (0.25, 0.5, 0.75) if (v * n) == int(v * n)])
+    x = [[float(rng.randint(1, 6)) for _ in range(d)] for _ in range(n)]
+    return {"pid": "s%d" % k, "trainer": "oneclass", "n": n, "d": d, "kernel": "lin", "gamma": 0.0, "x": x, "Cneg": 1.0, "Cpos": 1.0,
+            "eps": rng.choice([1e-3, 1e-5]), "param": nu, "w": None, "bias": 1, "y": [0.0] * n}
+
 def configs(p, rng):
     out = []
     for shrink in (0, 1):
@@ -182,7 +207,10 @@ def monitor(p, c, K, res):
         bad.append(("bias", "bias-free training returned offset %r" % bias))
     obj = math.fsum(lin * v for (v, lo, hi, lin, i) in V) - 0.5 * math.fsum(coef[i] * f[i] for i in range(n))
     otol = (frel * 4 + 64 * EPSM * math.sqrt(it + 1)) * max(1.0, scale * asum)
-    if not abs(value - obj) <= otol: bad.append(("objective", "reported dual objective %r, recomputed %r (tol %.3g)" % (value, obj, otol)))
+    # the property's premise is "accuracy reached" (typ == 1).  A run stopped on the iteration limit is judged on the objective only
+    # in the reused-trainer stage below (where it is waived with a count): QpSolver::solve reports functionValue() of a still shrunk
+    # problem on that path (harness/c07_findings.txt), which is outside the claim
+    if (typ == 1 or c["warm"] == 4) and not abs(value - obj) <= otol: bad.append(("objective", "reported dual objective %r, recomputed %r (tol %.3g)" % (value, obj, otol)))
     return bad, obj
 
 
@@ -496,6 +524,11 @@ def main():
         for k in range(1500 if big else 150):
             p = gen_problem(ck.rng, "p%d" % k, big)
             for ci, c in enumerate(configs(p, ck.rng)): items.append((p, c, "p%d_%d" % (k, ci)))
+        # special structures (no-bias machines on inputs of very different norms; one-class vertex optima): own random stream
+        srng = random.Random(ck.seed * 104729 + 11)
+        for k in range(200 if big else 36):
+            p = gen_special(srng, k, big)
+            for ci, c in enumerate(configs(p, srng)): items.append((p, c, "s%d_%d" % (k, ci)))
         # degenerate-geometry stream: its own random stream, so the problem population above stays what it was
         drng = random.Random(ck.seed * 7919 + 7)
         for k in range(len(DEG_FAMILIES) * (100 if big else 14)):
